@@ -48,6 +48,10 @@ var verifCastProgs = []verifCastProg{
 		func(a int64) string { return "caught\n" + fmt.Sprint(a) + "\n" }},
 	{"optional-any-into-branch-value", "fn main() {\n  let o = new { s: \"text\", n: A } as { ? };\n  try {\n    let y: ?int = if A == A { o->s } else { ?1 };\n    println(y.unwrap() + 1);\n  } catch e { println(\"caught\"); }\n  println(A);\n}\n",
 		func(a int64) string { return "caught\n" + fmt.Sprint(a) + "\n" }},
+	{"annotated-let-wraps-into-option", "fn main() {\n  let o = new { k: A } as { ? };\n  let v: ?int = o.get(\"k\").unwrap();\n  println(v.unwrap() + 1, v.is_some());\n  let l: [?int] = \"[1, null]\".parse_json();\n  println(l[0].unwrap() + A, l[1].is_none());\n}\n",
+		func(a int64) string { return fmt.Sprint(a+1) + " true\n" + fmt.Sprint(1+a) + " true\n" }},
+	{"annotated-let-admits-object-as-any-object", "fn main() {\n  let src = new { inner: new { n: A } } as { ? };\n  let ao: { ? } = src.get(\"inner\").unwrap();\n  println(ao.keys().len());\n  let n: ?int = ao->n;\n  println(n.unwrap() + 1);\n  let r: { rows: [{ ? }] } = \"{\\\"rows\\\": [{\\\"x\\\": 2}]}\".parse_json();\n  println(r.rows[0].keys().len(), (r.rows[0]~>x as int) + A);\n}\n",
+		func(a int64) string { return "1\n" + fmt.Sprint(a+1) + "\n1 " + fmt.Sprint(2+a) + "\n" }},
 	{"parse-json", "fn main() {\n  let r = \"{\\\"val\\\": 42}\".parse_json() as { val: int };\n  println(r.val + A);\n  try {\n    let s = \"{\\\"val\\\": 42}\".parse_json() as { val: str };\n    println(\"not reached\", s);\n  } catch e {\n    println(\"caught\");\n  }\n  println(\"end\");\n}\n",
 		func(a int64) string { return fmt.Sprint(42+a) + "\ncaught\nend\n" }},
 }
